@@ -436,3 +436,78 @@ func TestVerifC16RenameDisconnect(t *testing.T) {
 		env.stop(5 * time.Second)
 	}
 }
+
+// TestVerifC16RenameTwoFids: a rename inside one directory that names the directory through two
+// different fids, with a live fid on the renamed entry, must be answered.
+// TestVerifC16 probes share vh16Probe: run fn, report whether it returned within 3 x 1.1 s.
+func vh16Probe(fn func()) bool {
+	done := make(chan struct{})
+	go func() { fn(); close(done) }()
+	select {
+	case <-done:
+		return true
+	case <-time.After(3300 * time.Millisecond):
+		return false
+	}
+}
+
+func TestVerifC16Probes(t *testing.T) {
+	out := vhOpen(t)
+	defer out.Close()
+	{ // rename through two fids of one directory
+		fs := vhgNewFS()
+		vh16Seed(fs, 1)
+		env, err := vhgStart(fs, 1)
+		if err != nil {
+			t.Fatal(err)
+		}
+		root, _ := env.clients[0].Attach("")
+		_, d1, err1 := root.Walk([]string{"c0"})
+		_, d2, err2 := root.Walk([]string{"c0"})
+		_, _, err3 := root.Walk([]string{"c0", "a"})
+		if err1 != nil || err2 != nil || err3 != nil {
+			t.Fatal(err1, err2, err3)
+		}
+		ok := vh16Probe(func() { d1.RenameAt("a", d2, "z") })
+		out.Emit(map[string]interface{}{"kind": "probe", "name": "rename-two-fids", "answered": ok,
+			"what": "Trenameat a->z with old and new directory given by two fids of /c0 while a third fid is on /c0/a"})
+		if ok {
+			env.stop(5 * time.Second)
+		}
+	}
+	{ // clone-with-attributes (Twalkgetattr, no names) held in Walk(nil) while a writer queues on the same node
+		ok := false
+		for try := 0; try < 3 && !ok; try++ {
+			fs := vhgNewFS()
+			vh16Seed(fs, 1)
+			env, err := vhgStart(fs, 2)
+			if err != nil {
+				t.Fatal(err)
+			}
+			r0, _ := env.clients[0].Attach("")
+			r1, _ := env.clients[1].Attach("")
+			_, f1, err1 := r0.Walk([]string{"c0", "a"})
+			_, f2, err2 := r1.Walk([]string{"c0", "a"})
+			if err1 != nil || err2 != nil {
+				t.Fatal(err1, err2)
+			}
+			g := fs.arm("Walk", "/c0/a", 0)
+			dA, dB := make(chan struct{}), make(chan struct{})
+			go func() { f1.WalkGetAttr(nil); close(dA) }()
+			select {
+			case <-g.reached:
+			case <-time.After(10 * time.Second):
+				t.Fatal("Walk(nil) not reached")
+			}
+			go func() { f2.SetAttr(SetAttrMask{Size: true}, SetAttr{Size: 1}); close(dB) }()
+			time.Sleep(300 * time.Millisecond) // let the writer queue on the node lock (it cannot be observed)
+			close(g.release)
+			ok = vh16Probe(func() { <-dA; <-dB })
+			if ok {
+				env.stop(5 * time.Second)
+			}
+		}
+		out.Emit(map[string]interface{}{"kind": "probe", "name": "clone-getattr-vs-writer", "answered": ok,
+			"what": "Twalkgetattr with no names held in Walk(nil) while Tsetattr on the same path (other connection) queues for the node lock; then released"})
+	}
+}
